@@ -266,6 +266,15 @@ func tpScenarioMode(r *RunCtx, away bool) {
 			st = fakeRecvState{fakeState{chid: c.chid, status: datatransfer.Ongoing}, n}
 			sr.want = n
 			skips = append(skips, sr)
+			// the manager re-applies the channel's transport options on every restart in the same process: UseStore is
+			// called again for a store that is already registered (the transport reports that; the option ignores it)
+			if c.useStore[0] {
+				if _, cleaned := c.cleanedAt[c.req.name]; !cleaned {
+					err := c.req.tp.UseStore(c.chid, c.storeReq.LinkSystem())
+					w.Logf("OP %s UseStore again #%d -> %v", c.req.name, c.idx, err)
+					r.Probe("store-configured-again-on-restart")
+				}
+			}
 		}
 		err := c.req.tp.OpenChannel(context.Background(), c.resp.id, c.chid, cidlink.Link{Cid: c.root}, c.sel, st, c.openMsg(restart))
 		sr.opened = err == nil
